@@ -503,7 +503,12 @@ def r15_lower_for(src, body_open_byte=0):
         bo = j
         bc = match_close(st, bo)
         expr_toks = st[e0:bo]
-        if len(expr_toks) >= 4 and [u.text for u in expr_toks[-4:]] == ['.', 'iter', '(', ')']:
+        reverse = False
+        if len(expr_toks) >= 8 and [u.text for u in expr_toks[-8:]] == ['.', 'iter', '(', ')', '.', 'rev', '(', ')']:
+            # `for x in E.iter().rev()`: the same lowering, counting down
+            e_text = src[expr_toks[0].start:expr_toks[-9].end]
+            reverse = True
+        elif len(expr_toks) >= 4 and [u.text for u in expr_toks[-4:]] == ['.', 'iter', '(', ')']:
             e_text = src[expr_toks[0].start:expr_toks[-5].end]
         elif expr_toks and expr_toks[0].kind == 'p' and expr_toks[0].text == '&' and not (len(expr_toks) > 1 and expr_toks[1].text == 'mut'):
             e_text = src[expr_toks[1].start:expr_toks[-1].end]
@@ -514,8 +519,13 @@ def r15_lower_for(src, body_open_byte=0):
         else:
             continue
         hdr_old = src[t.start:st[bo].end]
-        hdr_new = (f'{{ let __v{k} = {"" if by_value else "&"}{e_text}; let mut __i{k}: usize = 0; while __i{k} < __v{k}.len() {{'
-                   f' let {x} = &__v{k}[__i{k}]; __i{k} = __i{k} + 1;')
+        # (a leading empty statement keeps Verus from reading the new block as a clause of a loop that ends right before it)
+        if reverse:
+            hdr_new = (f'; {{ let __v{k} = &{e_text}; let mut __i{k}: usize = __v{k}.len(); while __i{k} > 0 {{'
+                       f' __i{k} = __i{k} - 1; let {x} = &__v{k}[__i{k}];')
+        else:
+            hdr_new = (f'; {{ let __v{k} = {"" if by_value else "&"}{e_text}; let mut __i{k}: usize = 0; while __i{k} < __v{k}.len() {{'
+                       f' let {x} = &__v{k}[__i{k}]; __i{k} = __i{k} + 1;')
         edits.append((t.start, st[bo].end, _keep_newlines(hdr_old, hdr_new)))
         edits.append((st[bc].end, st[bc].end, ' }'))
         lowered.append(k)
@@ -526,6 +536,9 @@ def r15_lower_for(src, body_open_byte=0):
         pos = b
     out.append(src[pos:])
     return ''.join(out), lowered
+
+
+R15_REVERSED = re.compile(r'let mut __i(\d+): usize = __v\d+\.len\(\); while __i\d+ > 0')
 
 
 def r22_adapters(src):
